@@ -54,10 +54,12 @@ fn scenario(seed: u64, i: usize, big: bool) -> Scenario {
     }
     // in a sixth of the runs the sequence counters start just below the end of their width (round 7):
     // the ids handed out around the wrap must stay distinct
-    if sc.idw <= 4 && rng.chance(1, 6) {
+    // (drawn from a stream of its own, so that the rest of the scenario is what it was before)
+    let mut rng2 = Rng::new(mix(seed ^ 0xC11B, i as u64));
+    if sc.idw <= 4 && rng2.chance(1, 6) {
         let top = if sc.idw == 2 { 0x1_0000u64 } else { 0x1_0000_0000u64 };
         for e in sc.ents.iter_mut().take(3) {
-            e.seq0 = top - rng.range(1, 4);
+            e.seq0 = top - rng2.range(1, 4);
         }
     }
     let nput = if big { rng.range(8, 40) } else { rng.range(2, 10) } as usize;
